@@ -113,3 +113,23 @@ Theorem C01_message_sequence : forall p k msgs, Forall msg_ok msgs ->
         = Ok (map (fun q => (fst q, canon p (snd q))) msgs, mkS r rcx).
 Proof. exact message_sequence. Qed.
 Print Assumptions C01_message_sequence.
+
+(* the same for the UNCHECKED binary writer (binary_unsafe.rs write_message_begin + values): given room
+   for them, the enveloped messages it writes back to back are read back -- envelopes and values,
+   exactly the bytes written -- by the checked binary reader from any idle context and by the
+   unchecked reader (the segments are those of the checked writer: C11_message_write_eq) *)
+From PV Require Import Thrift.Unsafe Proofs.UnsafeP Proofs.UMsgWriteP.
+Theorem C01_message_sequence_unchecked : forall k zc msgs cap,
+  Forall msg_ok msgs ->
+  (match k with BContig => True | BLinked z => z = zc end) ->
+  exists ss, write_msgs PBinary k msgs w0 = Ok (ss, w0) /\
+    (Z.of_nat (List.length (flat ss)) <= cap ->
+     exists u', uwrite_msgs zc msgs (match k with BContig => uw_contig cap | BLinked _ => uw_linked cap end) = Ok (ss, u') /\
+       forall fuel r, (forall q, In q msgs -> (vsize (snd q) <= fuel)%nat) ->
+         (forall rcx, idle rcx ->
+            read_msgs PBinary fuel (map (fun q => ttype_of (snd q)) msgs) (mkS (flat ss ++ r)%list rcx)
+              = Ok (map (fun q => (fst q, canon PBinary (snd q))) msgs, mkS r rcx)) /\
+         (exists u2, uread_msgs fuel (map (fun q => ttype_of (snd q)) msgs) (mkU (flat ss ++ r)%list 0)
+                       = Ok (map (fun q => (fst q, canon PBinary (snd q))) msgs, u2) /\ urest u2 = r)).
+Proof. exact unchecked_message_sequence. Qed.
+Print Assumptions C01_message_sequence_unchecked.
